@@ -701,9 +701,16 @@ func (c *Compiler) structCode(typ *runtime.Type, isPtr bool) (*StructCode, error
 		}
 		fields = append(fields, field)
 	}
-	fieldMap := c.getFieldMap(fields)
-	duplicatedFieldMap := c.getDuplicatedFieldMap(fieldMap)
-	code.fields = c.filteredDuplicatedFields(fields, duplicatedFieldMap)
+	if forEmbedded {
+		// which of the fields of an embedded struct are visible is decided by the
+		// outermost struct, over all levels of embedding at once ( as in encoding/json ):
+		// a name that is ambiguous inside the embedded struct still hides deeper ones
+		code.fields = fields
+	} else {
+		fieldMap := c.getFieldMap(fields)
+		duplicatedFieldMap := c.getDuplicatedFieldMap(fieldMap)
+		code.fields = c.filteredDuplicatedFields(fields, duplicatedFieldMap)
+	}
 	if !code.disableIndirectConversion && !indirect && isPtr {
 		code.enableIndirect()
 	}
@@ -822,14 +829,6 @@ func (c *Compiler) collectFieldMap(fields []*StructFieldCode, depth int, fieldMa
 		if field.isAnonymous {
 			structCode := field.getAnonymousStruct()
 			if structCode != nil && !structCode.isRecursive {
-				if depth > 0 {
-					// Do not handle tagged key when embedding more than once
-					for _, f := range structCode.fields {
-						if !f.isAnonymous {
-							f.isTaggedKey = false
-						}
-					}
-				}
 				c.collectFieldMap(structCode.fields, depth+1, fieldMap)
 				continue
 			}
